@@ -166,6 +166,7 @@ def c07(tier):
              "no clear() member: a partially read table cannot be released")
     ts.ts3(P, C, only=("read_fits_core", "read_fits", "read_fits_mem"))
     vg.vg2(P, C)
+    vg.vg2c(P, C)
     # a crafted file cannot make the reader transfer more elements than the array it allocated holds
     fs.fs7(P, C)
     cw.cw1(P, C, only=("readsplinefitstable", "readsplinefitstable_mem"))
